@@ -116,12 +116,22 @@ impl Family for A1 {
             if let Mode::Key { omit_e_pub, e_priv: Some(_), .. } = &mut m {
                 *omit_e_pub = rng.chance(1, 6);
             }
+            // a file encrypted to oneself: sender key == recipient key
+            if rng.chance(1, 10) {
+                if let Mode::Key { s_priv, r_priv, .. } = &mut m {
+                    *r_priv = s_priv.clone();
+                }
+            }
             m
         } else {
             gen_pass_mode(rng)
         };
         let cs = mode.cs();
-        let plain = if cs == 65536 {
+        // streams of several hundred chunks (counters past one byte): tiny chunk size, full reads
+        let many_chunks = matches!(&mode, Mode::Hook { cs, .. } if *cs <= 3) && rng.chance(1, 8);
+        let plain = if many_chunks {
+            Plain { len: cs * rng.range(250, 700) as usize + rng.usize_below(cs), fill_seed: rng.next_u64() }
+        } else if cs == 65536 {
             match rng.below(12) {
                 0 => gen_plain(rng, cs, 2),
                 1 => Plain { len: cs * rng.range(1, 3) as usize + [0usize, 1].get(rng.usize_below(2)).copied().unwrap(), fill_seed: rng.next_u64() },
@@ -147,6 +157,10 @@ impl Family for A1 {
         let (mut e, _) = gen_caps(rng, cs);
         for v in [&mut a, &mut b, &mut c, &mut d, &mut e] {
             bound(v, plain.len + 200);
+        }
+        if many_chunks {
+            // full reads on the encrypt side: one chunk per chunk-size bytes
+            a.clear();
         }
         let wrong = match &mode {
             Mode::Pass { password, .. } => {
